@@ -18,6 +18,7 @@ import (
 func init() { props["C16"] = runC16 }
 
 func runC16(c *Ctx) {
+	defer withDisturb(c)()
 	n := int64(80000)
 	if c.Thorough() {
 		n = 5000000
@@ -116,7 +117,13 @@ func runC16(c *Ctx) {
 			}
 			wi := s.WarriorCount() - 1
 			// the listing denotes the warrior whatever the simulator did in between
-			switch r.Intn(4) {
+			switch r.Intn(5) {
+			case 4:
+				// the simulator is reset and takes another warrior afterwards: the earlier one keeps its own code
+				s.Reset()
+				other, _ := genWarrior(r, int64(r.Intn(numForms)), d, m, maxLen)
+				s.AddWarrior(&g.WarriorData{Name: "later", Author: "y", Code: toGCode(other), Start: 0})
+				history = "after-reset-and-another-add"
 			case 1:
 				s.SpawnWarrior(wi, g.Address(r.Intn(3*m)))
 				history = "after-spawn"
